@@ -66,6 +66,8 @@ fn main() {
         "colattrs" => behreplay::replay_colattrs(&gets(&m, "in", ""), &gets(&m, "out", "/tmp/icverif")),
         "styles" => behreplay::replay_styles(&gets(&m, "in", ""), &gets(&m, "out", "/tmp/icverif")),
         "tokens" => cases::tokens(&gets(&m, "in", ""), &gets(&m, "out", "/tmp/icverif"), getb(&m, "thorough"), geti(&m, "skip", 0) as usize),
+        "finite" => cases::finite(&gets(&m, "in", ""), &gets(&m, "out", "/tmp/icverif"), getb(&m, "thorough"), geti(&m, "skip", 0) as usize),
+        "evalone" => cases::evalone(&gets(&m, "f", "")),
         "runprog" => histrec::run_program(&gets(&m, "in", ""), &gets(&m, "out", "/tmp/icverif")),
         "histbeh" => histrec::replay_behaviours(
             &gets(&m, "in", ""),
